@@ -203,3 +203,31 @@ Proof.
   intros H. destruct (In_nth l x 0 H) as (n & Hn & Hx).
   exists (Z.of_nat n). unfold znth, zlen. rewrite Nat2Z.id. split; [lia|exact Hx].
 Qed.
+
+(* ---- more slice/splice algebra (ReadBuf reasoning) ---- *)
+Lemma splice_self {A} (l : list A) a b : 0 <= a -> a <= b -> b <= zlen l -> splice l a (slice l a b) = l.
+Proof.
+  intros Ha Hab Hb. unfold splice, slice, zlen in *.
+  rewrite firstn_length, skipn_length.
+  replace (Z.to_nat a + Nat.min (Z.to_nat (b - a)) (length l - Z.to_nat a))%nat with (Z.to_nat b) by lia.
+  rewrite <- (firstn_skipn (Z.to_nat a) l) at 4. f_equal.
+  rewrite <- (firstn_skipn (Z.to_nat (b - a)) (skipn (Z.to_nat a) l)) at 2. f_equal.
+  rewrite skipn_skipn. f_equal. lia.
+Qed.
+Lemma slice_app_l {A} (l1 l2 : list A) a b : 0 <= a -> a <= b -> b <= zlen l1 -> slice (l1 ++ l2) a b = slice l1 a b.
+Proof.
+  intros. unfold slice, zlen in *. rewrite skipn_app, firstn_app.
+  replace (Z.to_nat (b - a) - length (skipn (Z.to_nat a) l1))%nat with 0%nat by (rewrite skipn_length; lia).
+  cbn [firstn]. apply app_nil_r.
+Qed.
+(* reading l[x..y) across a splice at a of d, when [x..y) = [x..a) ++ [a..y) with y <= a + |d| *)
+Lemma slice_splice_mid {A} (l d : list A) a x y : 0 <= x -> x <= a -> a <= y -> y <= a + zlen d -> a + zlen d <= zlen l ->
+  slice (splice l a d) x y = slice l x a ++ firstn (Z.to_nat (y - a)) d.
+Proof.
+  intros Hx Hxa Hay Hyd Hl. pose proof (zlen_nonneg d) as Hd.
+  rewrite (slice_split _ x a y) by (rewrite ?zlen_splice; lia).
+  rewrite slice_splice_before by lia. f_equal.
+  assert (Hs : slice (splice l a d) a y = firstn (Z.to_nat (y - a)) (slice (splice l a d) a (a + zlen d))).
+  { rewrite firstn_slice by (rewrite ?zlen_splice; lia). f_equal. lia. }
+  rewrite Hs, slice_splice_same by lia. reflexivity.
+Qed.
